@@ -546,7 +546,15 @@ func r05c(c *core.Ctx) {
 		switch x := r.(type) {
 		case *ssa.Select:
 			for _, st := range x.States {
-				if st.Chan == ssa.Value(mk) && st.Dir == types.RecvOnly {
+				ch := st.Chan
+				for {
+					if ct, ok := ch.(*ssa.ChangeType); ok { // chan T used as <-chan T (handed to a helper's parameter)
+						ch = ct.X
+						continue
+					}
+					break
+				}
+				if ch == ssa.Value(mk) && st.Dir == types.RecvOnly {
 					recv++
 				}
 			}
